@@ -27,8 +27,10 @@ use crate::{
     parameter::Parameter,
     parameter_list::{ParameterList, ParameterListable},
   },
-  network::{constant::user_traffic_unicast_port, util::get_local_unicast_locators},
-  rtps::{rtps_reader_proxy::RtpsReaderProxy, rtps_writer_proxy::RtpsWriterProxy},
+  rtps::{
+    constant::USER_TRAFFIC_LISTENER_TOKEN, rtps_reader_proxy::RtpsReaderProxy,
+    rtps_writer_proxy::RtpsWriterProxy,
+  },
   serialization::{
     pl_cdr_adapters::{
       PlCdrDeserialize, PlCdrDeserializeError, PlCdrSerialize, PlCdrSerializeError,
@@ -764,8 +766,15 @@ impl DiscoveredWriterData {
     dp: &DomainParticipant,
     security_info: Option<EndpointSecurityInfo>,
   ) -> Self {
-    let unicast_port = user_traffic_unicast_port(dp.domain_id(), dp.participant_id());
-    let unicast_addresses = get_local_unicast_locators(unicast_port);
+    // Announce the locators of the listener that was actually opened for user
+    // traffic, like the readers do. It is not necessarily at the well-known port
+    // computed from the participant id: if that port was taken, the participant
+    // listens at some other port, and replies (ACKNACK, NACKFRAG) sent to the
+    // well-known port would never reach this writer.
+    let unicast_addresses = dp
+      .self_locators()
+      .remove(&USER_TRAFFIC_LISTENER_TOKEN)
+      .unwrap_or_default();
     // TODO: Why empty vector below? No multicast?
     let writer_proxy = WriterProxy::new(writer.guid(), vec![], unicast_addresses);
     let publication_topic_data = PublicationBuiltinTopicData::new_with_qos(
